@@ -1149,6 +1149,15 @@ pub mod implementations {
 
         let arg = arg.move_out_of_heap_primitive()?;
 
+        // `modify` names a captured variable. The compiler also accepts it inside an `if`/`while`
+        // block for a variable that this very function declared in an enclosing block.
+        if ctx.load_callback_variable(name).is_err() {
+            if let Ok(local) = ctx.load_local(name) {
+                local.set_primitive(arg);
+                return Ok(());
+            }
+        }
+
         ctx.update_callback_variable(name, arg)?;
 
         Ok(())
